@@ -81,6 +81,12 @@ def check(ctx):
              dict(name='funnel_error', module='parser', kind='complete', timeout=600, covers_optional=True, desc='error(): wraps the given error with the current line in both modes, records no warning'),
              dict(name='funnel_check_version', module='parser', kind='complete', timeout=900,
                   desc='check_version: for all u32 masks, all declared versions, both modes: narrows version_compatibility by the mask; raises through the funnel exactly when the file version is not in the mask')]
+    # the value validation itself: strict Ok(v) ==> v is acceptable for the spec in the file version (unit valueparse)
+    from contracts import valueparse
+    try:
+        ctx.verus_unit(valueparse.make_unit(ctx.scratch.dir), finder=None)
+    except Lost as e:
+        ctx.undecided.append('valueparse reason=lost anchor: %s' % e)
     # value checks run on the *trimmed* text: the trim contract (only ASCII whitespace is removed, and all of it at both ends)
     # is what keeps a defective value from slipping through; same unit as in C02
     from contracts import trim
